@@ -26,6 +26,18 @@ theorem replaceContent_spec {item : Nat} {theta : Rat} (hP : P item) (h0 : 0 < t
     simp only [Option.isSome_some, true_iff, hf]
     simpa using h0
 
+/-- for `theta ≤ 1` the proposed clamp changes nothing -/
+theorem replaceContentV_eq_rat (clamp : Bool) (item : Nat) {theta : Rat} (h1 : theta ≤ 1) :
+    replaceContentV clamp item theta = replaceContent item theta := by
+  unfold replaceContentV replaceContent
+  cases clamp
+  · rfl
+  · simp only [if_true, rat_le, rat_one, rat_eq, rat_cmin, decide_eq_true_eq, min_eq_left h1]
+    by_cases h : theta = 1
+    · simp [h]
+    · have : ¬ (1 ≤ theta) := fun hle => h (le_antisymm h1 hle)
+      simp [h, this]
+
 /-- The part of the sketch state that the sample bookkeeping depends on, with the maximum weight `M` and the bound `K`
 that `rho` was computed from as parameters (the `wt_max_`/`k_` fields may differ from them in the middle of a merge). -/
 structure Core (P : Nat → Prop) (s : Sketch Rat) (M : Rat) (K : Nat) : Prop where
@@ -104,6 +116,7 @@ theorem absorb_core {v : Variant} {s : Sketch Rat} {M : Rat} {K : Nat} {item : N
     (by rw [hth]; exact mul_pos hnrp hi) (by rw [hth]; exact hth1)
   obtain ⟨m1, m2, m3⟩ := mergeSample_spec (ge := v.geDraw) d1 r1 d3
   have hcond : (Num.lt (zero : Rat) s.cumWt) = true := by simp [hw]
+  have hthle : thetaOf nr ≤ 1 := by rw [hth]; exact hth1
   have e : absorb v s item incr thetaOf newWtMax d =
       ({ s with cumWt := s.cumWt + incr, rho := nr,
                 sample := (mergeSample v.geDraw (downsample v.geDraw s.sample (nr / s.rho) d).1
@@ -111,7 +124,7 @@ theorem absorb_core {v : Variant} {s : Sketch Rat} {M : Rat} {K : Nat} {item : N
        (mergeSample v.geDraw (downsample v.geDraw s.sample (nr / s.rho) d).1
                               (replaceContent item (thetaOf nr)) (downsample v.geDraw s.sample (nr / s.rho) d).2).2) := by
     unfold absorb
-    simp only [hcond, if_true, rat_newRho, ← hnr]
+    simp only [hcond, if_true, rat_newRho, ← hnr, mergeSampleV_eq_rat, replaceContentV_eq_rat _ _ hthle]
   rw [e]
   refine ⟨⟨m1, by simp only; linarith, hM', hk1, rfl, ?_⟩, rfl, rfl, rfl, rfl, m3⟩
   simp only
@@ -142,12 +155,13 @@ theorem absorb_fresh {v : Variant} {s : Sketch Rat} {item : Nat} {incr newWtMax 
     (by rw [hth]; exact mul_pos hnrp hi) (by rw [hth]; exact hth1)
   obtain ⟨m1, m2, m3⟩ := mergeSample_spec (ge := v.geDraw) hs r1 hd
   have hcond : (Num.lt (zero : Rat) s.cumWt) = false := by simp [hw0]
+  have hthle : thetaOf nr ≤ 1 := by rw [hth]; exact hth1
   have e : absorb v s item incr thetaOf newWtMax d =
       ({ s with cumWt := s.cumWt + incr, rho := nr,
                 sample := (mergeSample v.geDraw s.sample (replaceContent item (thetaOf nr)) d).1 },
        (mergeSample v.geDraw s.sample (replaceContent item (thetaOf nr)) d).2) := by
     unfold absorb
-    simp only [hcond, rat_newRho, ← hnr]
+    simp only [hcond, rat_newRho, ← hnr, mergeSampleV_eq_rat, replaceContentV_eq_rat _ _ hthle]
     rfl
   rw [e]
   refine ⟨⟨m1, by simp only; linarith, hM, hk1, rfl, ?_⟩, rfl, rfl, rfl, rfl, m3⟩
